@@ -74,6 +74,7 @@ func runC20Case(cc c20Case) (string, string) {
 		}
 	}()
 	closeRead := false
+	var crCtx context.Context
 	var readerRunning chan struct{}
 	startReader := func() {
 		if readerRunning != nil || closeRead {
@@ -104,7 +105,7 @@ func runC20Case(cc c20Case) (string, string) {
 			c.Ping(octx)
 		case "closeread":
 			if readerRunning == nil {
-				c.CloseRead(bg)
+				crCtx = c.CloseRead(bg)
 				closeRead = true
 			}
 		case "netconn":
@@ -199,6 +200,14 @@ func runC20Case(cc c20Case) (string, string) {
 	}
 	b.Close()
 	<-peerStop
+	if crCtx != nil {
+		// whoever waits on the context CloseRead returned must be released once the connection is closed
+		select {
+		case <-crCtx.Done():
+		case <-time.After(300 * time.Millisecond):
+			return "closeread-context-not-cancelled", fmt.Sprintf("%+v: the context returned by CloseRead is still not cancelled 300 ms after %s returned", cc, cc.Then)
+		}
+	}
 	if after > before {
 		return "goroutine-outlives-close", fmt.Sprintf("%+v: %d library goroutine(s) still alive 100 ms after %s returned (%v, err=%v): %s", cc, after-before, cc.Then, took.Round(time.Millisecond), err, which)
 	}
@@ -224,7 +233,7 @@ func genC20(rng *rand.Rand) c20Case {
 func runC20(ctx *runCtx) {
 	rep := ctx.rep
 	rep.Rule = "histories of 0..4 operations from {write, read, ping, CloseRead, NetConn, abandoned Reader, abandoned Writer} ended by {Close, CloseNow, peer Close, protocol error, context expiry, transport failure, a Close still running in another goroutine} and followed by Close, CloseNow or a Close whose code / reason cannot be sent (also as the only closing call), both roles, the peer echoing Close frames at once or after 250-400 ms (a close handshake is then in progress during the final call), also after CloseRead + an unsolicited data message; run one at a time; " +
-		"oracle: the number of live goroutines whose stack is in Conn.timeoutLoop or the CloseRead goroutine is not higher after the final call returned than before the connection was created. distinct = history"
+		"oracle: the number of live goroutines whose stack is in Conn.timeoutLoop or the CloseRead goroutine is not higher after the final call returned than before the connection was created, and the context returned by CloseRead is cancelled. distinct = history"
 	if ctx.replay != "" {
 		var cc c20Case
 		if err := loadReplay(ctx.replay, &cc); err == nil && cc.End != "" {
